@@ -65,3 +65,62 @@ def concurrent_replay(mod, ctx, cases, nthreads=4, rounds=2):
     ctx.h('concurrent replay', 'threads', nthreads)
     ctx.h('concurrent replay', 'cases', len(cases))
     return n_eval
+
+
+def _outcome(thunk):
+    try:
+        r = thunk()
+        return ('ok', repr(r))
+    except BaseException as e:  # noqa
+        return ('exc', type(e).__name__)
+
+
+def hammer(ctx, calls, nthreads=4, per_thread=40000):
+    """calls: list of (label, thunk).  Every thunk is first run alone (its outcome there is what the check's oracle has
+    already judged), then `nthreads` threads call all of them in rotated orders, `per_thread` calls each, with a switch
+    interval of a microsecond; an outcome that differs from the outcome alone is an answer that leaked from another
+    thread's call."""
+    import time
+    t0 = time.perf_counter()
+    alone = [_outcome(t) for _l, t in calls]
+    again = [_outcome(t) for _l, t in calls]
+    per_call = (time.perf_counter() - t0) / max(1, 2 * len(calls))
+    # about three seconds of library time in total, at least 300 and at most `per_thread` calls per thread
+    per_thread = max(300, min(per_thread, int(3.0 / max(per_call, 1e-6) / nthreads)))
+    stable = [i for i in range(len(calls)) if alone[i] == again[i]]
+    if len(stable) < 2:
+        return 0
+    bad = []
+    counts = [0] * nthreads
+    start = threading.Barrier(nthreads)
+
+    def work(i):
+        try:
+            start.wait(timeout=30)
+        except threading.BrokenBarrierError:
+            return
+        n = len(stable)
+        for k in range(per_thread):
+            if bad:
+                return
+            j = stable[(k + i * (n // nthreads + 1)) % n]
+            got = _outcome(calls[j][1])
+            counts[i] += 1
+            if got != alone[j]:
+                bad.append({'call': calls[j][0], 'alone': alone[j], 'under_concurrency': got, 'thread': i, 'iteration': k})
+                return
+    old = sys.getswitchinterval()
+    sys.setswitchinterval(1e-6)
+    try:
+        ts = [threading.Thread(target=work, args=(i,), daemon=True) for i in range(nthreads)]
+        for t in ts:
+            t.start()
+        for t in ts:
+            t.join(timeout=120)
+    finally:
+        sys.setswitchinterval(old)
+    ctx.clause('concurrent-calls-answer-as-alone', sum(counts))
+    ctx.h('concurrent hammer', 'distinct calls', len(stable))
+    for b in bad[:1]:
+        ctx.fail('concurrent-calls-answer-as-alone', {'kind': 'hammer', 'call': b['call']}, b)
+    return sum(counts)
